@@ -13,6 +13,39 @@ DETECTED = {
     'C14-c': ['C14: H14b / H14b-config strategy-within-the-node (added after the miss)'],
     'C18-c': ['C18: H18b application-exact-name-then-longest-match'],
     'C20-c': ['C20: H20i io-rate-non-negative, H20a io-rate-non-negative (added after the miss)'],
+    'C02-c': ['C02: H02a-n3-election invariant-I1-local-master-is-seen-running (added after the miss)'],
+    'C04-c': ['C04: H04b-dist target-knows-and-enables (added after the miss)', 'C14: H14b-config'],
+    'C05-c': ['C05: H05-2 restart-starts-one-copy-again'],
+    'C08-c': ['C08: H08c-split back-to-operation (added after the miss)', 'C01: H01g'],
+    'C09-c': ['C09: H09-master stop-sent-where-supvisors-lists-the-process-running (added after the miss)'],
+    'C10-c': ['C10: H10-stop abandoned-after-the-deadline'],
+    'C11-c': ['C11: H11-n2 / H11-n3 op:event:displayed'],
+    'C13-c': ['C13: H13b stale-handshake-result-changes-nothing with a slow XML-RPC (added after the miss)'],
+    'C15-c': ['C15: H15c other-construct-is-major-failure'],
+    'C16-c': ['C16: H16b events-handled-without-internal-error, H16d'],
+    'C17-c': ['C17: H17 exception:ValueError'],
+    'C19-c': ['C19: H19a-full exception:TypeError'],
+    'C01-d': ['C01: H01g one-master-per-group with a stalled proxy thread (added after the miss)'],
+    'C02-d': ['C02: see DESIGN.md section 13'],
+    'C03-d': ['C03: H03b stop-strategy-stops-the-application'],
+    'C04-d': ['C04: H04a chosen-is-eligible, H04b-1proc target-permitted'],
+    'C05-d': ['C05: H05-2 stops-where-the-strategy-says with an instance in its handshake (added after the miss)'],
+    'C06-d': ['C06: H06e no-strategy-while-the-process-still-runs (added after the miss)'],
+    'C07-d': ['C07: H07b its-processes-fatal-and-unlisted'],
+    'C08-d': ['C08: H08c-distribution back-to-operation (added after the miss)'],
+    'C09-d': ['C09: H09-master higher-stop-sequence-finished-first with an explicit stop_sequence 0 (added after the '
+              'miss)'],
+    'C10-d': ['C10: H10-start / H10-local abandoned-after-the-deadline'],
+    'C11-d': ['C11: H11-n2 / H11-n3 op:removal:state'],
+    'C12-d': ['C12: H12-loss reported-location-is-true (added after the miss)'],
+    'C13-d': ['C13: H13b inconsistent-peer-is-isolated'],
+    'C14-d': ['C14: H14a-n3lean strategy-order'],
+    'C15-d': ['C15: H15b-meta major-is-negated-formula (added after the miss)'],
+    'C16-d': ['C16: H16f exception:RuntimeError (added after the miss)', 'C04: H04b-1proc'],
+    'C17-d': ['C17: H17 refused-outside-its-states'],
+    'C18-d': ['C18: H18c references-followed-to-depth-3-own-values-first with symbolic values (added after the miss)'],
+    'C19-d': ['C19: H19a repeated-prediction-is-the-same, H19a-full model-left-idle'],
+    'C20-d': ['C20: H20c running-process-still-collected (added after the miss)'],
 }
 for line in open(sys.argv[1]):
     m = re.match(r'(C\d\d-\w): without=\[(.*?)\] with=\[(.*?)\] suite=\[(.*)\]', line.strip())
